@@ -17,7 +17,7 @@ theorem find?_map_append_some {α : Type} (p : α → Bool) (F : α → α) (hF 
 
 theorem findGroup_shape {s s' : State} (h : Shape s s') (b g : Nat) (x : Group) (hx : findGroup s b g = some x) :
     ∃ x', findGroup s' b g = some x' ∧ x'.ancestors = x.ancestors ∧ x'.update = x.update ∧ x'.batch = x.batch ∧ x'.id = x.id := by
-  obtain ⟨F, new, hF, e⟩ := h.groups
+  obtain ⟨F, new, hF, e, _⟩ := h.groups
   refine ⟨F x, ?_, (hF x).2.2.1, (hF x).2.2.2, (hF x).1, (hF x).2.1⟩
   unfold findGroup at *
   rw [e]
